@@ -1,4 +1,4 @@
-// Command vcheck is the single driver of all property checks.
+// Command c01 is the driver of the C01 check.
 package main
 
 import (
